@@ -1,5 +1,5 @@
 """C16 — emu-sv open-system runs: plumbing and generator shape (structural clauses)."""
-from ..rules import adapter, device, observables, step
+from ..rules import drivers, adapter, device, observables, step
 
 META = {
     "title": "emu-sv open-system runs solve the Lindblad equation and stay physical",
@@ -32,3 +32,4 @@ def check(ctx):
     ctx.floor("HERM", 2)
     observables.lindbladian_structure(ctx)
     adapter.noise_source(ctx)
+    drivers.phase_shortcut(ctx)
